@@ -1,5 +1,5 @@
 #!/usr/bin/env python3
-"""tools/refcheck.py <prop> <worktree> [--checks C01,C06] [--skip-suite]
+"""tools/refcheck.py <prop> <worktree> [--checks C01,C06] [--skip-suite] [--name C01-p2]
 
 False-alarm probe: a sub-agent made a BEHAVIOUR-PRESERVING refactoring of the code a property is anchored in (scratch worktree, _out/patch.diff, demo.py, notes.md).
   1. the refactoring passes the existing test-suite exactly as the base tree does, and its demonstration passes with and without it,
@@ -19,12 +19,15 @@ def sh(cmd, cwd=None, env=None, timeout=3600):
 
 def main():
     prop, wt = sys.argv[1], sys.argv[2]
-    checks, skip_suite = [prop], False
+    checks, skip_suite, name = [prop], False, prop
     args = sys.argv[3:]
     i = 0
     while i < len(args):
         if args[i] == '--checks':
             checks = args[i + 1].split(',')
+            i += 2
+        elif args[i] == '--name':
+            name = args[i + 1]
             i += 2
         elif args[i] == '--skip-suite':
             skip_suite = True
@@ -33,7 +36,7 @@ def main():
             i += 1
     out = os.path.join(wt, '_out')
     patch, demo = os.path.join(out, 'patch.diff'), os.path.join(out, 'demo.py')
-    meta = dict(property=prop, at=time.strftime('%Y-%m-%d %H:%M:%S'), kind='behaviour-preserving refactoring')
+    meta = dict(property=prop, name=name, at=time.strftime('%Y-%m-%d %H:%M:%S'), kind='behaviour-preserving refactoring' if name == prop else 'behaviour-preserving performance / robustness change')
     rc, o = sh('git -C %s checkout -q -- . ; git -C %s apply --check %s && git -C %s apply %s' % (wt, wt, patch, wt, patch))
     meta['patch_applies_on_clean_checkout'] = (rc == 0)
     if rc != 0:
@@ -60,7 +63,7 @@ def main():
                       unbound=[l[:300] for l in lines if l.startswith('UNBOUND')][:12])
     meta['checks_against_refactoring'] = res
     meta['false_alarm'] = [c for c, r in res.items() if r['exit'] != 0]
-    d = os.path.join(ROOT, 'refactors', prop)
+    d = os.path.join(ROOT, 'refactors', name)
     os.makedirs(d, exist_ok=True)
     shutil.copy(patch, os.path.join(d, 'patch.diff'))
     if os.path.exists(os.path.join(out, 'notes.md')):
